@@ -31,11 +31,12 @@ VARIABLES ci,        \* index of the configuration in use
           dvals,     \* recorded rows of d: sequence of <<coord, value>> in first-assignment order
           doc,       \* outcome of d: "UNSET" "PARTIALLY_SET" "PASS" "FAIL"
           dmar,
+          evals, eoc, emar,   \* a second dimensioned measurement "e", declared after "d"
           ended,     \* phase finished
           perr,      \* "none" | "EXC": error surfaced to the phase
           hist       \* <<op, exception raised to the body ("" = none), observation>>
 
-vars == <<ci, sval, soc, smar, dvals, doc, dmar, ended, perr, hist>>
+vars == <<ci, sval, soc, smar, dvals, doc, dmar, evals, eoc, emar, ended, perr, hist>>
 C == Cfgs[ci]
 Vals == 0..4
 
@@ -64,12 +65,13 @@ EvalD(vs, rows) ==
 MarD(vs, rows) == \E i \in 1..Len(vs) : RowVals(rows) \cap vs[i].mar # {}
 
 (* the from-scratch rendering of the in-memory state (what a read must return) *)
-Obs == [s |-> <<sval, soc, smar>>, d |-> <<dvals, doc, dmar>>, perr |-> perr]
+Obs == [s |-> <<sval, soc, smar>>, d |-> <<dvals, doc, dmar>>, e |-> <<evals, eoc, emar>>, perr |-> perr]
 Rec(op, exc) == hist' = Append(hist, <<op, exc, Obs'>>)      \* last conjunct of an action
 
 Init == /\ ci \in 1..Len(Cfgs)
         /\ sval = -1 /\ soc = "UNSET" /\ smar = FALSE
         /\ dvals = <<>> /\ doc = "UNSET" /\ dmar = FALSE
+        /\ evals = <<>> /\ eoc = "UNSET" /\ emar = FALSE
         /\ ended = FALSE /\ perr = "none" /\ hist = <<>>
 
 Can(op) == ~ended /\ Len(hist) < MaxOps /\ op \in C.ops
@@ -86,7 +88,7 @@ SetS(v) ==
      /\ sval' = x
      /\ soc' = IF e = "PASS" THEN "PASS" ELSE "FAIL"
      /\ smar' = (e = "PASS" /\ MarS(C.sv, x))
-     /\ UNCHANGED <<ci, dvals, doc, dmar, ended, perr>>
+     /\ UNCHANGED <<ci, dvals, doc, dmar, evals, eoc, emar, ended, perr>>
      /\ Rec(<<"SetS", v>>, IF e = "RAISE" THEN "ValidatorError" ELSE "")
 
 PosOf(c) == IF \E i \in 1..Len(dvals) : dvals[i][1] = c
@@ -99,20 +101,31 @@ SetD(c, v) ==
          p == PosOf(c) IN
      /\ dvals' = IF p = 0 THEN Append(dvals, <<c, x>>) ELSE [dvals EXCEPT ![p] = <<c, x>>]
      /\ doc' = "PARTIALLY_SET"
-     /\ UNCHANGED <<ci, sval, soc, smar, dmar, ended, perr>>
+     /\ UNCHANGED <<ci, sval, soc, smar, dmar, evals, eoc, emar, ended, perr>>
      /\ Rec(<<"SetD", c, v>>, "")
+
+PosOfE(c) == IF \E i \in 1..Len(evals) : evals[i][1] = c
+             THEN CHOOSE i \in 1..Len(evals) : evals[i][1] = c ELSE 0
+SetE(c, v) ==
+  /\ Can("SetE")
+  /\ LET x == T(C.et, v)
+         p == PosOfE(c) IN
+     /\ evals' = IF p = 0 THEN Append(evals, <<c, x>>) ELSE [evals EXCEPT ![p] = <<c, x>>]
+     /\ eoc' = "PARTIALLY_SET"
+     /\ UNCHANGED <<ci, sval, soc, smar, dvals, doc, dmar, emar, ended, perr>>
+     /\ Rec(<<"SetE", c, v>>, "")
 
 (* "an assignment to an undeclared name, to a dimensioned measurement without
    coordinates, or with the wrong number of coordinates is rejected and changes
    nothing" *)
 Rejected(op, v, exc) ==
   /\ Can(op)
-  /\ UNCHANGED <<ci, sval, soc, smar, dvals, doc, dmar, ended, perr>>
+  /\ UNCHANGED <<ci, sval, soc, smar, dvals, doc, dmar, evals, eoc, emar, ended, perr>>
   /\ Rec(<<op, v>>, exc)
 
 Read ==
   /\ Can("Read")
-  /\ UNCHANGED <<ci, sval, soc, smar, dvals, doc, dmar, ended, perr>>
+  /\ UNCHANGED <<ci, sval, soc, smar, dvals, doc, dmar, evals, eoc, emar, ended, perr>>
   /\ Rec(<<"Read">>, "")
 
 (* "No measurement leaves a phase PARTIALLY_SET"; "... raised ... at phase end
@@ -120,17 +133,21 @@ Read ==
 EndPhase ==
   /\ ~ended /\ hist # <<>>
   /\ ended' = TRUE
-  /\ IF doc = "PARTIALLY_SET"
-     THEN LET e == EvalD(C.dv, dvals) IN
-          /\ doc' = IF e = "PASS" THEN "PASS" ELSE "FAIL"
-          /\ dmar' = (e = "PASS" /\ MarD(C.dv, dvals))
-          /\ perr' = IF e = "RAISE" THEN "EXC" ELSE perr
-     ELSE UNCHANGED <<doc, dmar, perr>>
-  /\ UNCHANGED <<ci, sval, soc, smar, dvals>>
+  \* every partially set measurement is validated, each on its own: a raising
+  \* validator of one does not keep the others from being validated
+  /\ LET ed == IF doc = "PARTIALLY_SET" THEN EvalD(C.dv, dvals) ELSE "SKIP"
+         ee == IF eoc = "PARTIALLY_SET" THEN EvalD(C.ev, evals) ELSE "SKIP" IN
+     /\ doc' = IF ed = "SKIP" THEN doc ELSE IF ed = "PASS" THEN "PASS" ELSE "FAIL"
+     /\ dmar' = IF ed = "SKIP" THEN dmar ELSE (ed = "PASS" /\ MarD(C.dv, dvals))
+     /\ eoc' = IF ee = "SKIP" THEN eoc ELSE IF ee = "PASS" THEN "PASS" ELSE "FAIL"
+     /\ emar' = IF ee = "SKIP" THEN emar ELSE (ee = "PASS" /\ MarD(C.ev, evals))
+     /\ perr' = IF ed = "RAISE" \/ ee = "RAISE" THEN "EXC" ELSE perr
+  /\ UNCHANGED <<ci, sval, soc, smar, dvals, evals>>
   /\ Rec(<<"EndPhase">>, "")
 
 Next == \/ \E v \in Vals : SetS(v)
         \/ \E c \in {1, 2}, v \in Vals : SetD(c, v)
+        \/ \E v \in Vals : SetE(1, v)
         \/ \E v \in {1} : Rejected("BadArity", v, "InvalidDimensionsError")
         \/ \E v \in {1} : Rejected("NoCoord", v, "InvalidDimensionsError")
         \/ \E v \in {1} : Rejected("Undeclared", v, "NotAMeasurementError")
@@ -148,7 +165,8 @@ UnsetIffNeverAssigned == (soc = "UNSET" <=> sval = -1) /\ (doc = "UNSET" <=> dva
 OutcomeFormula == sval # -1 => (soc = "PASS" <=> EvalS(C.sv, sval) = "PASS")
 MarginalFormula == /\ smar => (soc = "PASS" /\ MarS(C.sv, sval))
                    /\ dmar => (doc = "PASS" /\ MarD(C.dv, dvals))
-NoPartiallySet == ended => doc # "PARTIALLY_SET"
+NoPartiallySet == ended => (doc # "PARTIALLY_SET" /\ eoc # "PARTIALLY_SET")
+SecondDimOutcome == (ended /\ evals # <<>>) => (eoc = "PASS" <=> EvalD(C.ev, evals) = "PASS")
 DimOutcomeFormula == (ended /\ dvals # <<>>) => (doc = "PASS" <=> EvalD(C.dv, dvals) = "PASS")
 RaisingSurfaces == (ended /\ dvals # <<>> /\ EvalD(C.dv, dvals) = "RAISE") => (doc = "FAIL" /\ perr = "EXC")
 DistinctCoords == \A i, j \in 1..Len(dvals) : dvals[i][1] = dvals[j][1] => i = j
@@ -156,8 +174,8 @@ DistinctCoords == \A i, j \in 1..Len(dvals) : dvals[i][1] = dvals[j][1] => i = j
 OrderStable == [][\A i \in 1..Len(dvals) : Len(dvals') >= i /\ dvals'[i][1] = dvals[i][1]]_vars
 RejectedChangeNothing ==
   [][(Len(hist') > Len(hist) /\ hist'[Len(hist')][1][1] \in {"BadArity", "NoCoord", "Undeclared", "Read"})
-       => UNCHANGED <<sval, soc, smar, dvals, doc, dmar, perr>>]_vars
+       => UNCHANGED <<sval, soc, smar, dvals, doc, dmar, evals, eoc, emar, perr>>]_vars
 
 Emit == ended => PrintT(<<"HIST", ci, hist>>)
-View == <<ci, sval, soc, smar, dvals, doc, dmar, ended, perr>>
+View == <<ci, sval, soc, smar, dvals, doc, dmar, evals, eoc, emar, ended, perr>>
 ======================================================================
